@@ -25,6 +25,18 @@ Theorem C12_unknown_or_illkinded_tag_named : forall tag lay vs kvs tagv body,
 Proof. exact tag_unknown_names_tag. Qed.
 Print Assumptions C12_unknown_or_illkinded_tag_named.
 
+(* "the variant whose declared tag equals the tag in the data": equal AND of the same kind --
+   True or 1.0 in the data never selects the variant tagged 1; a tag whose kind no variant
+   declares selects nothing (and is then named by the error above) *)
+Theorem C12_chosen_variant_has_the_tag_of_the_data : forall (tagv : pyval) (vs : list (pyval * ty)) t,
+  find_variant tagv vs = Some t -> exists tv, In (tv, t) vs /\ kind_of tagv = kind_of tv /\ py_eqb tagv tv = true.
+Proof. exact (@find_variant_same_kind ty). Qed.
+Print Assumptions C12_chosen_variant_has_the_tag_of_the_data.
+
+Theorem C12_ill_kinded_tag_selects_nothing : forall (tagv : pyval) (vs : list (pyval * ty)),
+  (forall tv, In tv (map fst vs) -> kind_of tv <> kind_of tagv) -> find_variant tagv vs = None.
+Proof. exact (@find_variant_ill_kinded ty). Qed.
+
 Theorem C12_absent_tag_named_internal : forall tag vs kvs,
   dict_get (VStr tag) kvs = None ->
   exists e, ce (TTagged tag LInternal vs) (VDict kvs) = CTree (EWrongType e (VDict kvs) false None) /\ contains tag e.
